@@ -186,7 +186,7 @@ def classify(h, rc, logtext, js):
         checks = vr.get("checks", [])
         pd = js["property_details"][0]["property_details"]
         res["properties"] = pd.get("total_properties", len(checks))
-        stats = (js.get("cbmc") or [{}])[0].get("cbmc_stats", {})
+        stats = ((js.get("cbmc") or [{}])[0] or {}).get("cbmc_stats") or {}
         res["stats"] = stats
         res["duration_ms"] = vr.get("duration_ms")
     except Exception as e:  # pragma: no cover
@@ -203,7 +203,8 @@ def classify(h, rc, logtext, js):
          "location": "%s:%s" % (c.get("location", {}).get("file"), c.get("location", {}).get("line")),
          "category": c.get("category")} for c in failed]
     success = "VERIFICATION:- SUCCESSFUL" in logtext and vr.get("status") == "Success"
-    if "Status: ERROR" in logtext or "CBMC failed" in logtext or "out of memory" in logtext.lower():
+    if "Status: ERROR" in logtext or "CBMC failed" in logtext or "out of memory" in logtext.lower() \
+            or "ran out of memory" in logtext:
         res["reason"] = "CBMC error / out of memory"
         return res
     unsupported = [c for c in failed if "not currently supported" in c["description"]
@@ -299,14 +300,20 @@ def inject_test(scratch, hname, test_src):
 
 
 def scratch_crate(crate, tag):
-    d = os.path.join(WORK, "replay", "%s-%s" % (crate, tag))
-    if os.path.exists(d):
-        shutil.rmtree(d)
-    os.makedirs(os.path.dirname(d), exist_ok=True)
+    base = os.path.join(WORK, "replay", "%s-%s" % (crate, tag))
+    if os.path.exists(base):
+        shutil.rmtree(base)
+    os.makedirs(base)
+    d = os.path.join(base, crate)
     src = os.path.join(VERIF, "harness", crate)
     shutil.copytree(src, d, ignore=shutil.ignore_patterns("target", "Cargo.toml"))
+    shutil.copytree(os.path.join(VERIF, "harness", "common"), os.path.join(base, "common"))
     prepare_crate(crate, d)
     return d
+
+
+def drop_scratch(d):
+    shutil.rmtree(os.path.dirname(d), ignore_errors=True)
 
 
 def run_playback(scratch, test_name, timeout=1500, release=False):
@@ -338,7 +345,7 @@ def replay_counterexample(pid, crate, h, outdir):
     if not test_src:
         rec["note"] = "Kani produced no concrete playback test (rc=%s)" % rc
         json.dump(rec, open(rpath, "w"), indent=1)
-        shutil.rmtree(scratch, ignore_errors=True)
+        drop_scratch(scratch)
         return rec, rpath
     m = re.search(r"fn (kani_concrete_playback_\w+)", test_src)
     test_name = m.group(1)
@@ -356,7 +363,7 @@ def replay_counterexample(pid, crate, h, outdir):
     else:
         rec["reproduced"] = bool(failed)
     json.dump(rec, open(rpath, "w"), indent=1)
-    shutil.rmtree(scratch, ignore_errors=True)
+    drop_scratch(scratch)
     return rec, rpath
 
 
@@ -367,7 +374,7 @@ def replay_file(path):
     scratch = scratch_crate(crate, tag)
     inject_test(scratch, rec["harness"], rec["generated_test"])
     rc, out = run_playback(scratch, rec["test_name"])
-    shutil.rmtree(scratch, ignore_errors=True)
+    drop_scratch(scratch)
     print(out[-4000:])
     ran = "running 1 test" in out
     failed = ran and ("test result: FAILED" in out or "panicked at" in out)
@@ -534,7 +541,7 @@ def run_check(spec, tier, seed):
         r = results.get(h.name)
         if not r:
             continue
-        st = r.get("stats", {})
+        st = r.get("stats") or {}
         solver_s += float(st.get("runtime_decision_procedure_s", 0) or 0)
         symex_s += float(st.get("runtime_symex_s", 0) or 0)
         props += r.get("properties", 0)
